@@ -11,6 +11,12 @@
 //!     (which has a correct hard binding and, in one variant, a disallowed action) as an update manifest by
 //!     rewriting that UUID: never Valid/Trusted.
 //!
+//! After a missed independently seeded change (update-manifest re-basing grows the exclusion that CONTAINS the store start):
+//! whole units of several sizes are inserted at every unit boundary incl. directly in front of / behind the container, and the
+//! harness resolver re-bases only on an exact start match. /tmp/seed-C21/OUT/patch.diff -> keys
+//! `content-change-undetected datahash+update {jpeg,png} at=between-units:before-{APP11,caBX} edit=insert-new-unit`
+//! (C01: `undetected datahash+update ... edit=insert-new-unit|dup-unit`).
+//!
 //! Mutants caught (quick tier; unchanged tree reports only `... hard-binding-datahash fmt=*`):
 //!   /verif/mutants/C21-skip-binding-for-update.diff (verify_store skips the hash binding when the active manifest is an update
 //!       manifest): 3 -> 1295 violations, new keys `content-change-undetected {datahash+update,bmffhash} {jpeg,png,mp4} at=... edit=...`
@@ -92,11 +98,13 @@ fn content_edits(seed: &Seed, thorough: bool) -> Vec<Edit> {
     // content appended / inserted as whole units
     v.push(Edit::append(f, vec![0], "append-zero", "append-zero n=1".into()));
     v.push(Edit::append(f, vec![0xFF; 8], "append", "append-ff n=8".into()));
-    if let Some(x) = c01::well_formed_extra_unit(seed.family) {
-        v.push(Edit::append(f, x.clone(), "append-new-unit", "append-new-unit".into()));
+    // whole well-formed units of several sizes appended and inserted at EVERY unit boundary, including the boundaries
+    // directly in front of and directly behind the manifest container
+    for (name, x) in c01::extra_units(seed.family) {
+        v.push(Edit::append(f, x.clone(), "append-new-unit", format!("append-new-unit {name}")));
         if let Some(units) = &seed.units {
             for (i, u) in units.iter().enumerate() {
-                v.push(Edit::splice("insert-new-unit", u.start, u.start, x.clone(), format!("insert-new-unit before-unit={i}")));
+                v.push(Edit::splice("insert-new-unit", u.start, u.start, x.clone(), format!("insert-new-unit {name} before-unit={i}")));
             }
         }
     }
